@@ -20,6 +20,7 @@ import (
 	"github.com/cloudwego/hertz/pkg/app/middlewares/server/recovery"
 	"github.com/cloudwego/hertz/pkg/common/config"
 	"github.com/cloudwego/hertz/pkg/common/hlog"
+	"github.com/cloudwego/hertz/pkg/common/tracer/stats"
 	"github.com/cloudwego/hertz/pkg/network"
 	"github.com/cloudwego/hertz/pkg/network/standard"
 	"github.com/cloudwego/hertz/pkg/route"
@@ -92,6 +93,30 @@ func (noListenTransport) Close() error                               { return ni
 func (noListenTransport) Shutdown(ctx context.Context) error         { return nil }
 func (noListenTransport) ListenAndServe(onData network.OnData) error { return nil }
 
+type spanTracer struct{ w *World }
+
+func (t *spanTracer) Start(ctx context.Context, c *app.RequestContext) context.Context { return ctx }
+
+func (t *spanTracer) Finish(ctx context.Context, c *app.RequestContext) {
+	ti := c.GetTraceInfo()
+	if ti == nil || ti.Stats() == nil {
+		t.w.violate("tracer Finish: the request context carries no trace info")
+		return
+	}
+	var missing []string
+	for _, ev := range []struct {
+		n string
+		e stats.Event
+	}{{"HTTPStart", stats.HTTPStart}, {"ReadHeaderStart", stats.ReadHeaderStart}, {"ReadHeaderFinish", stats.ReadHeaderFinish}, {"ServerHandleStart", stats.ServerHandleStart}, {"ServerHandleFinish", stats.ServerHandleFinish}} {
+		if ti.Stats().GetEvent(ev.e) == nil {
+			missing = append(missing, ev.n)
+		}
+	}
+	if len(missing) > 0 && len(c.Request.Header.RequestURI()) > 1 {
+		t.w.violate("tracer Finish of %s: the stage events %v of this exchange are missing from its trace info (another connection's exchange reset them)", c.Request.Header.RequestURI(), missing)
+	}
+}
+
 type World struct {
 	job      Job
 	viol     []string
@@ -139,6 +164,10 @@ func (w *World) engine() *route.Engine {
 	opt.TransporterNewer = func(*config.Options) network.Transporter { return noListenTransport{} }
 	opt.DisablePrintRoute = true
 	opt.NoDefaultDate = true
+	// a tracer: every Finish must see the stage events of its own exchange (C19), also while other connections are
+	// being served - the trace info belongs to the request context, not to the engine
+	opt.Tracers = append(opt.Tracers, &spanTracer{w})
+	opt.TraceLevel = stats.LevelDetailed
 	e := route.NewEngine(opt)
 	e.Use(recovery.Recovery())
 	e.POST("/dirty/:id", func(c context.Context, ctx *app.RequestContext) {
